@@ -234,6 +234,11 @@ Definition op_sort : op := OStateless (fun i => [isort (port 0 i)]).
 Definition op_sort_by_key (key : val -> val) : op := OStateless (fun i => [isort_by key (port 0 i)]).
 Definition op_chain_first_n (n : nat) : op := OStateless (fun i => [firstn n (port 0 i ++ port 1 i)]).
 Definition op_null : op := OStateless (fun _ => [[]]).
+(* demux_enum over a two-variant enum, items encoded (variant index, payload); output port k (ports
+   sorted by variant name) receives the payloads of variant k *)
+Definition op_demux2 : op :=
+  OStateless (fun i => [map vsnd (filter (fun v => vnum (vfst v) =? 0) (port 0 i));
+                        map vsnd (filter (fun v => vnum (vfst v) =? 1) (port 0 i))]).
 
 (* zip_longest: EitherOrBoth encoded as Left a = (0, a), Right b = (1, b), Both a b = (2, (a, b)) *)
 Fixpoint vzip_longest (l r : list val) : list val :=
@@ -365,6 +370,7 @@ Definition f_add1 (v : val) : val := VN (vnum v + 1).
 Definition f_dbl (v : val) : val := VN (vnum v * 2).
 Definition f_mod3 (v : val) : val := VN (vnum v mod 3).
 Definition f_keymod3 (v : val) : val := VP (VN (vnum v mod 3)) v.   (* x -> (x mod 3, x) *)
+Definition f_kind (v : val) : val := VP (VN (vnum v mod 2)) v.   (* x -> Kind::Even(x) | Kind::Odd(x) *)
 Definition f_swap (v : val) : val := VP (vsnd v) (vfst v).
 Definition f_fst (v : val) : val := vfst v.
 Definition f_snd (v : val) : val := vsnd v.
